@@ -158,6 +158,14 @@ func (c *callRec) String() string {
 // span of ticks
 type ival struct{ Enter, Exit int64 }
 
+// tstr renders a tick ("never" for the sentinel).
+func tstr(t int64) string {
+	if t >= never {
+		return "never"
+	}
+	return fmt.Sprintf("t=%d", t)
+}
+
 // okAfterDown reports whether err is acceptable for a flush/shutdown call
 // issued after the provider is down.
 func okAfterDown(err error, cancelled bool, alsoOK ...error) bool {
